@@ -812,6 +812,46 @@ class Translator:
         self.out.append(f"Definition {cfg.coq} {' '.join(params)} : {self.coq_type(cfg.ret)} :=\n  {body}.\n")
         return fn
 
+    def function_qblock(self, qual, coq, qarrays):
+        """The regular triple loop of the Devoto blocks:
+             q = np.zeros(..); for i in range(nb): for j in range(nb): <stmts>; q[i, j] = <expr>; return q
+           ->  Definition coq (Q.. : nat -> nat -> A) (masses : nat -> A) (nb_species : nat) (number_densities : nat -> A) (i j : nat) : A"""
+        fn = self.find(qual)
+        pyargs = [a.arg for a in fn.args.args]
+        want = list(qarrays) + ["masses", "nb_species", "number_densities"]
+        if pyargs != want:
+            self.fail(fn, f"signature of {qual} is {pyargs}, translator expects {want}")
+        body = [b for b in fn.body if not self.is_doc(b)]
+        if len(body) != 3 or not isinstance(body[0], ast.Assign) or not isinstance(body[1], ast.For) or not isinstance(body[2], ast.Return):
+            self.fail(fn, "block is not `q = zeros; for i: ...; return q`")
+        qname = body[0].targets[0].id if isinstance(body[0].targets[0], ast.Name) else None
+        if qname is None or ast.unparse(body[0].value) != "np.zeros((nb_species, nb_species))" or ast.unparse(body[2].value) != qname:
+            self.fail(fn, "block result is not a zero-initialised nb_species x nb_species array")
+        fi = body[1]
+        if ast.unparse(fi.iter) != "range(nb_species)" or not isinstance(fi.target, ast.Name) or len(fi.body) != 1 or not isinstance(fi.body[0], ast.For):
+            self.fail(fi, "outer loop is not `for i in range(nb_species): for j ...`")
+        fj = fi.body[0]
+        if ast.unparse(fj.iter) != "range(nb_species)" or not isinstance(fj.target, ast.Name):
+            self.fail(fj, "inner loop is not `for j in range(nb_species)`")
+        iv, jv = fi.target.id, fj.target.id
+        stmts = [b for b in fj.body if not self.is_doc(b)]
+        last = stmts[-1]
+        if not (isinstance(last, ast.Assign) and len(last.targets) == 1 and ast.unparse(last.targets[0]) == f"{qname}[{iv}, {jv}]"):
+            self.fail(last, f"loop body does not end with {qname}[{iv}, {jv}] = ...")
+        for b in stmts[:-1]:
+            for x in ast.walk(b):
+                if isinstance(x, ast.Name) and x.id == qname:
+                    self.fail(b, "block reads its own result array")
+        ret = ast.Return(value=last.value)
+        ast.copy_location(ret, last)
+        cfg = FnCfg(coq, [], arrays={**{q: (2, "A") for q in qarrays}, "masses": (1, "A"), "number_densities": (1, "A")})
+        env = {"nb_species": "nat", iv: "nat", jv: "nat"}
+        self.loop_counter = 0
+        text, ty = self.block(stmts[:-1] + [ret], env, cfg, None)
+        params = " ".join(f"({cname(q)} : nat -> nat -> A)" for q in qarrays)
+        self.out.append(f"Definition {coq} {params} (masses : nat -> A) (nb_species : nat) (number_densities : nat -> A) "
+                        f"({cname(iv)} {cname(jv)} : nat) : A :=\n  {self.inj(text, ty, fn)}.\n")
+
     def render(self, header, section):
         lines = [header, f"Section {section}.", "Context {A : Type} (N : Num A) (U : Units A).", ""]
         lines += self.out
